@@ -158,6 +158,47 @@ pub fn run(rep: &Report) -> i32 {
             rep.sample(6, || json!({"part": "b", "jet": name, "argument_tuples": n, "program": pinned.text}));
         }
     });
+    // (c) arguments that are variables, one of them re-bound between its first binding and the call: the jet must
+    // receive the value of the most recent binding, in the written position (every position of every modelled jet
+    // of arity >= 2)
+    let multi: Vec<(String, usize)> = modelled
+        .iter()
+        .filter_map(|n| jets::signature(n).map(|(p, _)| (n.clone(), p.len())))
+        .filter(|(_, a)| *a >= 2)
+        .flat_map(|(n, a)| (0..a).map(move |k| (n.clone(), k)))
+        .collect();
+    rep.set("rebound_argument_programs", json!(multi.len()));
+    par_for(&multi, rep, 4, |i, (name, k)| {
+        rep.state();
+        let (ptys, ret) = jets::signature(name).unwrap();
+        let mut free: Vec<(String, Ty)> = ptys.iter().enumerate().map(|(j, t)| (format!("x{j}"), t.clone())).collect();
+        free.push(("y".to_string(), ptys[*k].clone()));
+        let call = jet(name, (0..ptys.len()).map(|j| var(&format!("x{j}"))).collect());
+        let term = Expr::Block(vec![let_(Pat::Id(format!("x{k}")), ptys[*k].clone(), var("y"))], Some(Box::new(call)));
+        let pinned = match pin_build(&term, &ret, &free, &[], &[false]) {
+            Ok(p) => p,
+            Err((text, o)) => {
+                rep.violation("C13:jet-not-callable", format!("jet::{name} with re-bound argument {k} not compiled: {o:?}"), json!({"kind": "compile", "program": text, "expect": "accept", "observed": "reject"}));
+                return;
+            }
+        };
+        let (lists, _) = value_lists(&free, if quick { 16 } else { 256 });
+        let sizes: Vec<usize> = lists.iter().map(|l| l.len()).collect();
+        let mut n = 0u64;
+        product(&sizes, |idx| {
+            let vals: Vec<Val> = idx.iter().enumerate().map(|(j, &m)| lists[j][m].clone()).collect();
+            rep.transition(1);
+            if vals[*k] != vals[ptys.len()] {
+                rep.nontrivial(1);
+            }
+            let tag = format!("jet {name} with argument {k} re-bound ({})", vals.iter().zip(free.iter()).map(|(v, (_, t))| render_expr(&val_expr(v, t))).collect::<Vec<_>>().join(", "));
+            drive::DUMMY.with(|env| pin_run(rep, "C13", &tag, &pinned, &vals, env, false));
+            n += 1;
+        });
+        if i % 211 == 0 {
+            rep.sample(8, || json!({"part": "c", "jet": name, "rebound_argument": k, "argument_tuples": n, "program": pinned.text}));
+        }
+    });
     rep.finish(
         "states = jets (a: signature, b: closed-form model); transitions = call variants + argument tuples; non-trivial = argument tuples whose operands are pairwise different (a swapped operand order would show)",
         &["operand grouping follows the frozen snapshot data/jet_sigs.txt of the pinned release's table (not an independent oracle)", "operand order, result shape and value functions (R5) are written from the Simplicity jet semantics; the C jets of simplicity-lang are trusted", "jets without a closed form (hashes, EC, transaction introspection) are only checked for callability"],
